@@ -80,7 +80,8 @@ def run_kills(prop: str, mods: List[Any], tier: str) -> List[Dict[str, Any]]:
         harmless = harmless[:0]
     out: List[Dict[str, Any]] = []
     jobs = [('kill',) + tuple(k) for k in kills] + [('harmless',) + tuple(h) + ('',) for h in harmless]
-    for kind, relpath, old, new, expect in jobs:
+    def one(job: Tuple[str, str, str, str, str]) -> Dict[str, Any]:
+        kind, relpath, old, new, expect = job
         base = os.environ.get('TMPDIR') or '/var/tmp'
         d = tempfile.mkdtemp(prefix='verif.kill.', dir=base)
         rec: Dict[str, Any] = {'kind': kind, 'file': relpath, 'old': old[:120], 'new': new[:120], 'expect': expect}
@@ -92,11 +93,10 @@ def run_kills(prop: str, mods: List[Any], tier: str) -> List[Dict[str, Any]]:
             if src.count(old) != 1:
                 rec['result'] = 'not-applicable'
                 rec['detail'] = 'anchor text occurs %d times in the current source' % src.count(old)
-                out.append(rec)
-                continue
+                return rec
             with open(fp, 'w', encoding='utf-8') as f:
                 f.write(src.replace(old, new))
-            env = dict(os.environ, PYVC_REPO=d, PYVC_EVIDENCE_DIR=os.path.join(d, 'ev'), PYVC_REPLAY_DIR=os.path.join(d, 'rp'), PYVC_NO_KILLS='1')
+            env = dict(os.environ, PYVC_REPO=d, PYVC_EVIDENCE_DIR=os.path.join(d, 'ev'), PYVC_REPLAY_DIR=os.path.join(d, 'rp'), PYVC_NO_KILLS='1', PYVC_NO_DEPS='1')
             p = subprocess.run([sys.executable, '-B', '-m', 'pyvc.cli', prop, '--tier', 'quick'], cwd=VERIF, env=env, capture_output=True, text=True, timeout=1800)
             viol = []
             for ln in p.stdout.splitlines():
@@ -120,7 +120,12 @@ def run_kills(prop: str, mods: List[Any], tier: str) -> List[Dict[str, Any]]:
             rec['detail'] = traceback.format_exc()[-1500:]
         finally:
             shutil.rmtree(d, ignore_errors=True)
-        out.append(rec)
+        return rec
+
+    from concurrent.futures import ThreadPoolExecutor
+
+    with ThreadPoolExecutor(max_workers=int(os.environ.get('VERIF_KILL_JOBS', '3'))) as tp:
+        out = list(tp.map(one, jobs))
     return out
 
 
@@ -260,7 +265,7 @@ def main(argv: Optional[List[str]] = None) -> int:
     # dependencies: contracts of OTHER properties that this property's contracts assume at call sites (modular verification reports a broken
     # callee on the callee's obligation); they are re-checked here so that the verdict for this property does not rest on an unchecked assumption
     n_own = len(hs)
-    for dep in entry.get('deps', []) if not a.filter else []:
+    for dep in entry.get('deps', []) if not (a.filter or os.environ.get('PYVC_NO_DEPS')) else []:
         dm = importlib.import_module(dep['module'])
         mk = getattr(dm, 'make_registry', H.Registry)
         flt = dep.get('filters')
